@@ -3,8 +3,8 @@
 //
 //	Integer                      XCore          a core type
 //	A, B, C, U                   XName n        a declared alias (0, 1, 2) or a name that is declared nowhere (U = 9)
-//	Array / Optional / NotUndef / Type [e]      XCont1
-//	Hash / Tuple / Variant [e, e']              XCont2
+//	Array / Optional / NotUndef / Type [e]      XCont1 KArray / KOptional / KNotUndef / KType
+//	Hash / Tuple / Variant [e, e']              XCont2 KHash / KTuple / KVariant  (the printer of the model tells them apart)
 //	Variant[e]                   XVar1          the member itself
 //	A[e], U[e]                   XArgs n e
 //	Object[{}], Object[{parent => e}]           XObj0, XObj e     (never the whole expression of a declaration: that
@@ -47,15 +47,15 @@ func aliasAtoms(withC bool) []aexpr {
 
 func aliasUnary(x aexpr, all bool) []aexpr {
 	us := []aexpr{
-		{"Array[" + x.text + "]", "(XCont1 " + x.term + ")", true},
+		{"Array[" + x.text + "]", "(XCont1 KArray " + x.term + ")", true},
 		{"Variant[" + x.text + "]", "(XVar1 " + x.term + ")", true},
 		{"Object[{parent => " + x.text + "}]", "(XObj " + x.term + ")", false},
 	}
 	if all {
 		us = append(us,
-			aexpr{"Optional[" + x.text + "]", "(XCont1 " + x.term + ")", true},
-			aexpr{"NotUndef[" + x.text + "]", "(XCont1 " + x.term + ")", true},
-			aexpr{"Type[" + x.text + "]", "(XCont1 " + x.term + ")", true},
+			aexpr{"Optional[" + x.text + "]", "(XCont1 KOptional " + x.term + ")", true},
+			aexpr{"NotUndef[" + x.text + "]", "(XCont1 KNotUndef " + x.term + ")", true},
+			aexpr{"Type[" + x.text + "]", "(XCont1 KType " + x.term + ")", true},
 			aexpr{"A[" + x.text + "]", "(XArgs 0%nat " + x.term + ")", true},
 			aexpr{"U[" + x.text + "]", "(XArgs 9%nat " + x.term + ")", true})
 	}
@@ -64,7 +64,7 @@ func aliasUnary(x aexpr, all bool) []aexpr {
 
 func aliasBinary(x, y aexpr, k int) aexpr {
 	tn := []string{"Hash", "Tuple", "Variant"}[k%3]
-	return aexpr{tn + "[" + x.text + ", " + y.text + "]", "(XCont2 " + x.term + " " + y.term + ")", true}
+	return aexpr{tn + "[" + x.text + ", " + y.text + "]", "(XCont2 K" + tn + " " + x.term + " " + y.term + ")", true}
 }
 
 // aliasPool: expressions of depth <= 2 (depth 3 for the parent forms)
@@ -93,9 +93,9 @@ func aliasPool(withC bool) (small, large []aexpr) {
 	var l3 []aexpr
 	for _, x := range l2 {
 		if !x.top && strings.HasPrefix(x.text, "Object[{parent") {
-			l3 = append(l3, aexpr{"Array[" + x.text + "]", "(XCont1 " + x.term + ")", true},
+			l3 = append(l3, aexpr{"Array[" + x.text + "]", "(XCont1 KArray " + x.term + ")", true},
 				aexpr{"Variant[" + x.text + "]", "(XVar1 " + x.term + ")", true},
-				aexpr{"Hash[B, Object[{parent => " + x.text + "}]]", "(XCont2 (XName 1%nat) (XObj " + x.term + "))", true})
+				aexpr{"Hash[B, Object[{parent => " + x.text + "}]]", "(XCont2 KHash (XName 1%nat) (XObj " + x.term + "))", true})
 		}
 	}
 	for _, x := range append(append([]aexpr{}, atoms...), l1...) {
